@@ -32,6 +32,31 @@ CHECKS = {
         text="Generated compound messages with string/block payloads containing newlines, separators and quotes are executed whole through run and streamed through process under schedules that cut inside payloads; handlers must receive the payloads verbatim, no error may be reported, and the handler sequence must equal the model's and the twin's.",
         note="Buffer sizes for process are the 13 instantiated sizes 8..4096 (messages are padded with blanks to fill a buffer exactly).",
         design="5/C08"),
+    "C03": dict(
+        technique="property-based testing against reference literal semantics (exact integer conversion; correct rounding decided by big-integer arithmetic), classes of literals built around type bounds and rounding boundaries",
+        text="Generated parameter lists for every parameter type and several signatures are sent through the real parser and dispatcher; the recorded handler arguments must equal the literals written exactly (floats: the correctly rounded value, decided by exact arithmetic independent of the standard library), or the handler must not run and exactly one error with an allowed number must be reported. TryInto<T> for &Value is also exercised directly.",
+        note="Where the statement leaves both rejection and exact delivery open (1.0 into an integer, float overflow, TRUE/FALSE ...) either is accepted, never a different value. Trusts bignum.rs/lits.rs.",
+        design="5/C03"),
+    "C06": dict(
+        technique="model-based property testing with fault injection at every unit position (eight fault kinds), reference interpreter with all-or-none alternatives as oracle",
+        text="Generated sequences of complete messages in which a random subset has exactly one faulty unit (syntax, undefined header, arity, kind, range, boolean, handler error) go through run in one buffer and through process; exactly one error per faulty message (verbatim for handler errors), earlier units as predicted, faulty handler not invoked, rest all-or-none, later messages exactly as in isolation.",
+        note="Faulty units never contain quotes or '#'; the unit after a syntactically broken unit is absolute or common. Fixture tree plus (in the C01 pipeline) generated trees.",
+        design="5/C06"),
+    "C09": dict(
+        technique="exhaustive enumeration of operation sequences (bounded depth, all capacities) plus proptest-generated grouped sequences, against a VecDeque reference queue",
+        text="All sequences of faults / queue reads / counts / commands up to the depth bound for capacities 1,2,3,4,10 are run through the interface; every SYST:ERR? / COUNt? response must equal the reference queue's prediction byte for byte; the ErrorQueue trait is also driven directly.",
+        note="The reference queue is fed with the error values observed at push_error; the text of each entry is the library's text for that value (only 'Queue overflow' comes from the model).",
+        design="5/C09"),
+    "C10": dict(
+        technique="property-based testing over generated streams and schedules with exhaustive fault injection at every position of the transport call sequence; trace oracle",
+        text="For generated streams the transport trace is checked: at every read the written bytes equal the predicted responses of exactly the completely delivered messages and are flushed; then a transport error is injected at every call position and the trace must be the fault-free prefix, the error returned unchanged, no further call.",
+        note="'Never returns Ok' is decided for finite streams only (they end with an EOF error). N large enough for all messages/responses.",
+        design="5/C10"),
+    "C11": dict(
+        technique="metamorphic property testing (base message vs lexical variants), exhaustive over all 32 white-space byte values per slot kind",
+        text="Base messages (valid and with execution-type faults) are compared with variants that change case, exchange short/long forms, insert white space of every permitted byte value in every permitted slot, and use CR LF; handlers, arguments, responses and errors must be identical through run and process.",
+        note="White space is varied only at the positions the statement lists.",
+        design="5/C11"),
     "C12": dict(
         technique="exhaustive enumeration of parser inputs x continuations over a class-representative alphabet, plus proptest-generated units with prefixes and tails; prefix/extension relations as oracle",
         text="parser::parse is called directly for every short input x and start node; accepted inputs must give the same call with any continuation appended (remainder = continuation) and consume at least a byte; newline-terminated rejected inputs must have no accepted continuation; Incomplete must not be returned when the input holds a complete unit.",
@@ -41,11 +66,6 @@ CHECKS = {
 
 PENDING = {
     "C01": "check not built yet (in progress): generated-interface pipeline",
-    "C03": "check not built yet (in progress)",
-    "C06": "check not built yet (in progress)",
-    "C09": "check not built yet (in progress)",
-    "C10": "check not built yet (in progress)",
-    "C11": "check not built yet (in progress)",
     "C13": "check not built yet (in progress)",
     "C14": "check not built yet (in progress): generated-interface pipeline",
 }
